@@ -358,6 +358,199 @@ def canvas_correspondence(ctx, drawings, noise):
     return stats, len(differ)
 
 
+
+# ------------------------------------------------------------------ merged drawings: coq/C19/CanvasMerged.v, CanvasHeadersDraw.v, CanvasColumnsDraw.v against the code (section owner: ext-merged)
+MERGED_HEADER = ('From Coq Require Import List NArith Bool Arith.\n'
+                 'From DV Require Import C19.Model C19.Canvas C19.CanvasDraw C19.CanvasSweep C19.CanvasMerged C19.CanvasHeadersDraw C19.CanvasColumnsDraw C19.CanvasHeadersSweep.\n'
+                 'Import ListNotations.\n')
+
+
+def mdraw_term(g, cv):
+    """a c19draw Grid (after layout / render) as a term of type CanvasMerged.mdraw"""
+    reg = [[None] * g.ncols for _ in range(g.nrows)]
+    txt = [['[]'] * g.ncols for _ in range(g.nrows)]
+    for (r0, c0, r1, c1, lines, align) in g.rects:
+        for r in range(r0, r1):
+            for c in range(c0, c1):
+                reg[r][c] = '(%d, %d, %d, %d)' % (r0, c0, r1, c1)
+        x0, x1 = g.X[c0] + 1, g.X[c1]
+        y0, y1 = g.Y[r0] + 1, g.Y[r1]
+        txt[r0][c0] = '[' + '; '.join(coq_points(''.join(cv[y][x0:x1])) for y in range(y0, y1)) + ']'
+    dv = [j for j in range(g.ncols + 1) if g.vsep[j] == 'd']
+    dh = [i for i in range(g.nrows + 1) if g.hsep[i] == 'd']
+    opt = lambda l: 'None' if len(l) < 2 else '(Some %d)' % l[1]
+    return ('(Build_mdraw [%s] [%s] (fun i j => nth j (nth i [%s] []) (0, 0, 0, 0)) (fun i j => nth j (nth i [%s] []) []) %d %s %d %s)'
+            % ('; '.join(map(str, g.w)), '; '.join(map(str, g.h)),
+               '; '.join('[' + '; '.join(r) + ']' for r in reg), '; '.join('[' + '; '.join(r) + ']' for r in txt),
+               dv[0], opt(dv), dh[0], opt(dh)))
+
+
+def merged_drawings(ctx, n):
+    """Drawings of c19draw WITHOUT information item name (both orientations, merged and multi-line cells, all option combinations) as
+    merged drawings of coq/C19/CanvasMerged.v: the drawing must be well formed (wf_mdraw), the Gallina `drawm` must reproduce the
+    drawn text character by character, and the plane canvas.rs builds from the text (dv canvas) must be `mplane` - numbers, rectangles,
+    texts, double-line cells (the theorem C19_draw_roundtrip_merged says canvas_cplane (drawm d) = mplane d for every wf_mdraw d)."""
+    rng = ctx.rng
+    grids = {}
+    orig = c19draw.Grid.render
+
+    def render(self):
+        cv, exp = orig(self)
+        grids['g'], grids['cv'] = self, cv
+        return cv, exp
+    c19draw.Grid.render = render
+    items = []
+    try:
+        while len(items) < n:
+            t, opts = gen_case(rng)
+            opts['info'] = None
+            spec = make_spec(rng, t, opts)
+            text, exp = c19draw.draw(spec, rng)
+            if text is None:
+                continue
+            g, cv = grids['g'], grids['cv']
+            items.append((mdraw_term(g, cv), ''.join(''.join(r) + '\n' for r in cv), text, opts['orientation']))
+    finally:
+        c19draw.Grid.render = orig
+    impl = ctx.run_impl('canvas', [{'text': text} for (_, _, text, _) in items], shards=8)
+    terms = ['let d := %s in (wf_mdraw d, all2 N.eqb (drawm d) %s, outcome_eqb (Ok (None, mplane d)) %s)' % (tm, coq_points(plain), coq_outcome(r))
+             for (tm, plain, _, _), r in zip(items, impl)]
+    res = ctx.run_model(MERGED_HEADER, terms, shard_size=max(1, n // 16 + 1), tag='mg')
+    bad = 0
+    for (tm, plain, text, o), r, im in zip(items, res, impl):
+        ctx.evaluations += 1
+        ctx.corr_checked += 1
+        ctx.nontrivial.add(('merged', o))
+        if list(r) != [True, True, True]:
+            bad += 1
+            what = 'wf_mdraw fails' if r[0] is not True else 'drawm differs from the drawn text' if r[1] is not True else 'canvas.rs plane differs from mplane'
+            ctx.corr_broken('canvas.rs / c19draw vs coq/C19/CanvasMerged.v (%s, %s)' % (o, what), {'text': text}, im if 'plane' not in im else 'plane', list(r))
+    return bad
+
+
+def gen_htable(rng, columns):
+    """a random `htable` (coq/C19/CanvasHeadersDraw.v) with its expected recognised fields; drawn as rows (merged input entries) or columns"""
+    alpha = 'abcdefgXYZ0123456789<>=,.()"'
+    ni, no, na, nr = rng.randint(1, 3), rng.randint(1, 3), rng.choice([0, 0, 1, 2]), rng.randint(1, 3)
+    multi = no > 1
+    label = multi and rng.random() < 0.6
+    values = rng.random() < 0.5
+    hdr = 1 + (1 if label else 0) + (1 if values else 0)
+    top = hdr - (1 if values else 0)
+    nl = ni + no + na
+    if columns:
+        ws = [rng.randint(2, 6) for _ in range(hdr + nr)]
+        hs = [rng.randint(1, 2) for _ in range(nl + 1)]
+    else:
+        ws = [rng.randint(2, 6) for _ in range(1 + nl)]
+        hs = [rng.randint(1, 2) for _ in range(hdr + nr)]
+    X = [0]
+    for w in ws:
+        X.append(X[-1] + w + 1)
+    Y = [0]
+    for h in hs:
+        Y.append(Y[-1] + h + 1)
+
+    def mk(R0, C0, R1, C1, token, junk=True):
+        # arguments in the rules-as-rows convention (line, column; column 0 = marker / rule numbers)
+        if not columns:
+            r0, r1, c0, c1 = R0, R1, C0, C1
+        elif C0 == 0:
+            r0, r1, c0, c1 = nl, nl + 1, R0, R1
+        else:
+            r0, r1, c0, c1 = C0 - 1, C1 - 1, R0, R1
+        w, h = X[c1] - X[c0] - 1, Y[r1] - Y[r0] - 1
+        lines = [' ' * w for _ in range(h)]
+        k = rng.randrange(h)
+        off = rng.randint(0, w - len(token))
+        lines[k] = ' ' * off + token + ' ' * (w - off - len(token))
+        if junk and rng.random() < 0.3 and h > 1:
+            lines[(k + 1) % h] = ''.join(rng.choice(alpha + '   ') for _ in range(w))
+        return lines
+
+    tok = lambda p: p + rng.choice(alpha[:7])
+    hp = mk(0, 0, hdr, 1, 'U', False)
+    ins = [(mk(0, 1 + i, top, 2 + i, tok('i')), mk(top, 1 + i, hdr, 2 + i, tok('v')) if values else [' ']) for i in range(ni)]
+    oc0 = 1 + ni
+    lab = mk(0, oc0, 1, oc0 + no, 'LB') if label else None
+    nrow = 1 if label else 0
+    if multi:
+        outs = [(mk(nrow, oc0 + k, nrow + 1, oc0 + k + 1, tok('o')), mk(top, oc0 + k, hdr, oc0 + k + 1, tok('w')) if values else [' ']) for k in range(no)]
+    else:
+        outs = [(mk(0, oc0, top, oc0 + 1, tok('L')), mk(top, oc0, hdr, oc0 + 1, tok('w')) if values else [' '])]
+    ac0 = oc0 + no
+    anns = [mk(0, ac0 + k, hdr, ac0 + k + 1, tok('A')) for k in range(na)]
+    merges, mblock = [], {}
+    if not columns:
+        for i in range(ni):
+            r = 0
+            while r < nr:
+                b = r
+                while b + 1 < nr and rng.random() < 0.35:
+                    b += 1
+                if b > r:
+                    merges.append((i, r, b))
+                    blk_ = mk(hdr + r, 1 + i, hdr + b + 1, 2 + i, tok('m'))
+                    for q in range(r, b + 1):
+                        mblock[(i, q)] = blk_
+                r = b + 1
+    rules = []
+    for r in range(nr):
+        y = hdr + r
+        rules.append((mk(y, 0, y + 1, 1, str(r + 1), False), [mblock.get((i, r)) or mk(y, 1 + i, y + 1, 2 + i, tok('e')) for i in range(ni)],
+                      [mk(y, oc0 + k, y + 1, oc0 + k + 1, tok('r')) for k in range(no)], [mk(y, ac0 + k, y + 1, ac0 + k + 1, tok('n')) for k in range(na)]))
+    blk = lambda lines: '[' + '; '.join(coq_points(l) for l in lines) + ']'
+    lst = lambda bs: '[' + '; '.join(blk(b) for b in bs) + ']'
+    term = ('(Build_htable [%s] [%s] %s [%s] %s [%s] %s %s [%s] [%s])'
+            % ('; '.join(map(str, ws)), '; '.join(map(str, hs)), blk(hp), '; '.join('(%s, %s)' % (blk(a), blk(b)) for a, b in ins),
+               '(Some %s)' % blk(lab) if lab is not None else 'None', '; '.join('(%s, %s)' % (blk(a), blk(b)) for a, b in outs),
+               lst(anns), 'true' if values else 'false',
+               '; '.join('(%s, %s, %s, %s)' % (blk(n), lst(i), lst(o), lst(a)) for n, i, o, a in rules),
+               '; '.join('(%d, %d, %d)' % m for m in merges)))
+    J = lambda b: '\n'.join(b)
+    exp = {'hit_policy': 'U', 'orientation': 'column' if columns else 'row',
+           'output_label': J(lab) if multi and lab is not None else (J(outs[0][0]) if not multi else None),
+           'inputs': [[J(a), J(b) if values else None] for a, b in ins],
+           'outputs': [[J(a) if multi else None, J(b) if values else None, None] for a, b in outs],
+           'annotations': [J(a) for a in anns],
+           'rules': [[[J(x) for x in i], [J(x) for x in o], [J(x) for x in a]] for n, i, o, a in rules]}
+    return term, exp, (hdr, bool(merges))
+
+
+def header_tables(ctx, n):
+    """Random tables of coq/C19/CanvasHeadersDraw.v (`htable`: 1..3 header lines, output label over the output columns, allowed values,
+    multi-line cells, merged input entries) drawn by the Gallina functions as rules-as-rows (header_drawing) and rules-as-columns
+    (column_drawing) text: the drawing must be well formed (wf_htable / wf_ctable: the hypothesis of C19_text_to_table_headers /
+    C19_text_to_table_columns), the Coq chain text -> plane -> table must give the fields of the table, and the REAL recogniser on
+    the same text must report exactly the drawn orientation, hit policy and fields."""
+    rng = ctx.rng
+    cases = [gen_htable(rng, k % 2 == 1) for k in range(n)]
+    terms = ['let s := %s in (%s s, %s s, drawm (%s s))' % (term, 'wf_ctable' if exp['orientation'] == 'column' else 'wf_htable',
+                                                          'ctable_ok' if exp['orientation'] == 'column' else 'htable_ok',
+                                                          'column_drawing' if exp['orientation'] == 'column' else 'header_drawing')
+             for term, exp, _ in cases]
+    res = ctx.run_model(MERGED_HEADER, terms, shard_size=max(1, n // 16 + 1), tag='ht')
+    texts = [''.join(chr(c) for c in r[2]) for r in res]
+    impl = ctx.run_impl('recognize', [{'text': t, 'calls': []} for t in texts], shards=8)
+    bad = 0
+    for (term, exp, shape), r, t, im in zip(cases, res, texts, impl):
+        ctx.evaluations += 1
+        ctx.corr_checked += 1
+        ctx.nontrivial.add(('htable', exp['orientation'], shape))
+        if 'panic' in im or 'crash' in im:
+            ctx.violation('the recogniser panicked on a well-formed drawing (Gallina header / column drawing): %s' % json.dumps(im)[:200], {'text': t, 'drawn': exp}, impl=im)
+            continue
+        wrong = [k for k, v in exp.items() if 'ok' not in im or im['ok'].get(k) != v]
+        if r[0] is not True or r[1] is not True:
+            bad += 1
+            ctx.corr_broken('coq/C19/CanvasHeadersDraw.v / CanvasColumnsDraw.v: %s' % ('drawing not well formed' if r[0] is not True else 'model chain text -> table differs from the drawn table'),
+                            {'text': t}, None, list(r[:2]))
+        elif wrong:
+            ctx.violation('a table drawn by the Gallina drawing function (well formed, read back by the model) is %s by the recogniser: %s'
+                          % ('rejected' if 'ok' not in im else 'misread in ' + wrong[0], json.dumps(im.get('err') if 'ok' not in im else im['ok'].get(wrong[0]))[:200]),
+                          {'text': t, 'drawn': exp}, impl=im.get('ok', im))
+    return bad
+
 def run(ctx):
     ctx.proof_gate()
     ctx.build_harness()
@@ -460,12 +653,14 @@ def run(ctx):
     cv_t0 = time.time()
     cv_stats, cv_differ = canvas_correspondence(ctx, [c[3] for c in cases[:ctx.pick(300, 8000)]], [txt for _, txt in noisy[::max(1, len(noisy) // ctx.pick(400, 10000))]])
     cv_regular_bad = regular_drawings(ctx, ctx.pick(60, 2000))
+    cv_merged_bad = merged_drawings(ctx, ctx.pick(32, 1500))
+    cv_htable_bad = header_tables(ctx, ctx.pick(32, 1500))
     return ctx.finish(
         rule='tables of the C03 fragment (1..5 inputs, 1..3 outputs, 0..2 annotations, 1..8 rules, all 11 hit-policy markers) drawn in both orientations with every '
              'combination of information item name / allowed values / output label / annotations, random cell widths, alignments, multi-line cells, merged input entries; '
              'every field compared with the drawing, evaluation compared with the XML equivalent on 4 tuples; then 8 single-character corruptions of each of 600 drawings, 2000 arbitrary texts '
              'and 4000 mangled drawings must give Ok or Err; non-trivial = distinct layout shapes',
-        extra_cov={'exhaustive': False, 'drawings': len(cases), 'distribution': hist, 'noise_outcomes': outcome, 'canvas_model': dict(cv_stats, differ=cv_differ, regular_drawings_differ=cv_regular_bad, seconds=round(time.time() - cv_t0, 1))},
+        extra_cov={'exhaustive': False, 'drawings': len(cases), 'distribution': hist, 'noise_outcomes': outcome, 'canvas_model': dict(cv_stats, differ=cv_differ, regular_drawings_differ=cv_regular_bad, merged_drawings_differ=cv_merged_bad, header_tables_differ=cv_htable_bad, seconds=round(time.time() - cv_t0, 1))},
         assumptions=['cell texts contain no box-drawing characters', 'allowed values are drawn for all clauses or for none (the text format has one values line)',
                      'in a rules-as-columns table the first input expression is not a hit-policy marker and output names are not numbers (the recogniser would take them for the marker / rule numbers)'],
         trusted=['dv recognize (dmntk_recognizer::build, Recognizer::recognize, build_decision_table_evaluator)', 'dv canvas (dmntk_recognizer::scan, Canvas::plane; cells read through Plane::cell / region_number / region_text and the Debug text of the rectangle)', 'props/c19draw.py (the drawing conventions follow /repo/examples)'])
